@@ -37,6 +37,8 @@ def gen_lit(rng, allow_suffix=True, allow_sign=True):
         pass
     if rng.random() < 0.1:
         text = "0" * rng.randint(1, 2) + text          # leading zeros
+    if allow_suffix and "," in text and rng.random() < 0.25:
+        text = text + str(rng.randint(1, 9)) * rng.randint(1, 4)       # a longer fraction: more decimals than the suffix has zeros
     if allow_suffix and rng.random() < 0.12:
         sfx = rng.choice(list(SUFFIX))
         v = float(text.replace(".", "").replace(",", ".")) * SUFFIX[sfx]
@@ -228,7 +230,11 @@ CORPUS_V = [("x = 2 3", 5.0), ("x = 2 3 * 4", 14.0), ("x = 2 (3)", 5.0), ("x = 1
             # a divisor that is tiny but not zero divides (only a zero divisor, i.e. an infinite or NaN quotient, gives 0)
             ("1 / 0,0000000000000001", 1.0 / 0.0000000000000001), ("1 / (0,1 + 0,2 - 0,3)", 1.0 / ((0.1 + 0.2) - 0.3)),
             ("3 * (2 / 0,00000000000000005) - 1", 3.0 * (2.0 / 0.00000000000000005) - 1.0), ("x = 8/(0,3-0,1-0,2)", 8.0 / ((0.3 - 0.1) - 0.2)),
-            ("5 / (2 - 2)", 0.0), ("1 / 0,001", 1000.0), ("(1 + 2)(3 + 4)", 10.0), ("2 * (3)(4)", 10.0), ("(8 / 2)(-(3))", 1.0)]
+            ("5 / (2 - 2)", 0.0), ("1 / 0,001", 1000.0),
+            # a magnitude suffix multiplies the literal, fraction included (no rounding of the product)
+            ("2,0625k", 2.0625 * 1000), ("0,0625k * 4", 0.0625 * 1000 * 4), ("3 * - 0,0625k + 2", 3 * -(0.0625 * 1000) + 2),
+            ("x = (0,0000005M + 1,5) * 2", (0.0000005 * 1000000 + 1.5) * 2), ("1,1k", 1.1 * 1000), ("0,00125M - 1", 0.00125 * 1000000 - 1),
+            ("1,23456k", 1.23456 * 1000), ("(1 + 2)(3 + 4)", 10.0), ("2 * (3)(4)", 10.0), ("(8 / 2)(-(3))", 1.0)]
 CORPUS = ["1 + 2 * 3", "(1+2)*3", "8 / 4 / 2 + 1", "2 * (3 + 4) * 5", "10 - 4 - 3", "1 / 0 + 5", "3-5", "2*3-5",
           "1 2 3", "2 * 3 4", "1k + 2", "x = 2 * (3 + 4)", "((1 + 2)) * 3", "1,5 * 2", "1.000 + 1",
           "- 5 + 2", "(- 5 + 1) * 2"]
@@ -275,7 +281,7 @@ def generate(rng, tier):
         if rng.random() < 0.25:
             # the same expression written in the other convention (decimal '.', thousands ',')
             text = text.translate(str.maketrans(",.", ".,"))
-            pre_ops = [{"op": "set_dec", "v": "."}, {"op": "set_thou", "v": ","}]
+            pre_ops = sep_ops(".", ",")
             style += "-dot"
         cases.append(exec_case(text, pre=pre_ops, kind=style, expect=bits(v), classes=sorted(cls)))
     return cases
